@@ -58,7 +58,7 @@ _c("C16", "model-based testing at real capacity: prefix re-execution + drain for
    "draining a re-executed prefix) and LockingDeque (popleft/len/qsize), bound, placement, displacement of exactly "
    "one old item, token count, clear, would-block detection.",
    "Which old item is displaced is left open. Blocking is detected by substituting the token queue class.")
-_c("C18", "differential testing across 102 configurations of decorator x host (incl. a started active object) x live flags x drive x polling",
+_c("C18", "differential testing across 164 configurations of decorator (none, all states, some states, another decorator) x host (incl. started active objects, named or anonymous) x live flags x drive x polling",
    "Exploration: each generated chart and event list is executed under every configuration and the handler action "
    "logs and resting states must be identical.",
    "The active-object configurations run under the deterministic scheduler with round-robin scheduling.")
@@ -72,13 +72,13 @@ _c("C20", "property-based testing: parsed trace() vs reference model transitions
    "Trusts the reference model and the documented trace line layout.")
 _c("C21", "property-based testing with a generated (coarse/constant) clock substituted for datetime.now",
    "Exploration: live spy/trace callback streams of generated histories equal the concatenated step logs and the "
-   "new trace records, exactly once and in order, under fine, coarse and constant clocks.",
-   "Queued-chart part only until the scheduler-based active-object part is added; clock substitution by module attribute.")
+   "new trace records, exactly once and in order, under fine, coarse, constant, backward-running and erratic clocks; one case in three on a started active object (writer thread).",
+   "Clock substitution by module attribute; the active-object cases run under the deterministic scheduler (round-robin).")
 _c("C22", "metamorphic twins + reference model for is_in/child_state",
    "Exploration: query answers compared with the model's active path; a twin without queries must behave identically.",
-   "Exception type of a failing child_state is unconstrained; state_name between a query and the next step is not asserted.")
+   "Exception type of a failing child_state is unconstrained; state_name/state_fn and the instrumentation switches are compared with the unqueried twin after every query.")
 _c("C23", "property-based testing: state_name/state_fn/current_state vs reference model after every step",
-   "Exploration on all hosts and both decoration styles.",
+   "Exploration on all hosts (incl. named and anonymous active objects) with decorated, bare and partly decorated charts.",
    "Steps already desynchronised by C01/C02 faults are not examined.")
 _c("C24", "fault injection: generated well-formed chart + one malformed init target / status-less handler, bounded execution",
    "Exploration: every fault shape reached by start_at and by dispatch must raise HsmTopologyException within a call bound.",
@@ -93,7 +93,7 @@ _c("C28", "grammar-based generation: every statement of a finite statement gramm
    "Lock ownership observed through a counting wrapper substituted for RLock; one-line statements only.")
 _c("C29", "model-based testing: generated create/assign/augment/read histories vs a per-instance dict",
    "Exploration: instances of one or two freshly defined classes, reads must return the model value of that instance.",
-   "Single-threaded.")
+   "Sequential histories plus threaded cases (each thread on its own instance) under the deterministic scheduler.")
 _c("C32", "metamorphic + reference-implementation oracle over generated traces",
    "Exploration: benign perturbations (timestamps, blank lines, surrounding whitespace) keep stripped() equal; "
    "field edits, drops, swaps, duplicates make it unequal; independent reference of the stripped lines.",
@@ -145,9 +145,9 @@ _c("C27", "schedule fuzzing of generated multi-threaded programs; serializabilit
    "the result of some serial order (all enumerated); no thread error, no deadlock.", _SCHED)
 _c("C30", "schedule fuzzing of concurrent first requests with fine run lengths",
    "Exploration: 2-4 threads request the lazily created singletons (directly and by constructing active "
-   "objects) starting from empty instance slots; one identity per singleton.", _SCHED)
+   "objects) starting from freshly made wrappers; one identity per singleton; a lifetime probe (ask, drop every reference, collect, ask again).", _SCHED)
 _c("C31", "virtual-clock testing of a rejected timed post",
-   "Exploration: source limit reached (QUEUE_SIZE 1..5 by subclass; 500 in thorough), further posts must raise, "
+   "Exploration: source limit reached (QUEUE_SIZE 1..5 by subclass; 500 and a subclass limit of 506 in thorough), further posts must raise, "
    "never fire, and leave the tracked sources on schedule.", _SCHED)
 
 NOT_APPLICABLE = {}
